@@ -44,7 +44,9 @@ def aliasMangle (tags : List String) (h : Hdr) (t : Ty) : Outcome (List FT) :=
     let setAliases := (found.map fun p => p.1 ++ "=" ++ (tagGet h.tags p.1).getD "")
     let sorted := setAliases.mergeSort (fun a b => a ≤ b)
     let aTags := tagSet aTags "dialsdesc" (desc ++ " (alias of " ++ " ".intercalate sorted ++ ")")
-    .ok [({ h with tags := srcTags }, t), ({ h with name := h.name ++ aliasFieldSuffix, tags := aTags }, t)]
+    -- the alias copy of an embedded field is never embedded itself (since the repair of P10:
+    -- `aliasField.Anonymous = false`; both copies promoted the same names before); the primary keeps `h.anon`
+    .ok [({ h with tags := srcTags }, t), ({ h with name := h.name ++ aliasFieldSuffix, tags := aTags, anon := false }, t)]
 
 mutual
 /-- transform/alias_mangler.go isUnset: IsNil for the nillable kinds, IsZero for the others (the fields of
@@ -174,7 +176,12 @@ def wrapPtrs : Nat → Val → Val
   | 0, v => v
   | n + 1, v => .ptr (wrapPtrs n v)
 
-/-- populateStruct: returns (value for this position, remaining input values, anyChildSet) -/
+/-- populateStruct: returns (value for this position, remaining input values, anyChildSet).  When a
+child was set the rebuilt struct is wrapped in the declared pointer levels; a struct held by value
+(`ptrDepth t = 0`: not pointerified, a field of a struct behind `**T`) receives the rebuilt struct
+itself (since the repair of P02: `setVal.Elem()`; `reflect.Set` of a `*struct` into a struct panicked
+before).  When no child was set the position keeps its zero value (`nilv`: the nil pointer, or the zero
+struct for a by-value field). -/
 def populate : Nat → Ty → List Val → Outcome (Val × List Val × Bool)
   | 0, _, _ => .err "fuel"
   | fuel + 1, t, vals =>
@@ -198,7 +205,7 @@ def populate : Nat → Ty → List Val → Outcome (Val × List Val × Bool)
             | v :: vals' => fields fl rest vals' (acc ++ [v]) (any || !v.isNil)
       match fields (ifs.toList.length + 1) ifs.toList vals [] false with
       | .ok (fvs, vals', any) =>
-        if any then (if ptrDepth t == 0 then .panic "reflect.Set: *struct into struct" else .ok (wrapPtrs (ptrDepth t) (.struct fvs), vals', true))
+        if any then .ok (wrapPtrs (ptrDepth t) (.struct fvs), vals', true)
         else .ok (.nilv, vals', false)
       | .err c => .err c
       | .panic c => .panic c
@@ -218,22 +225,31 @@ def flattenMangler (cfg : FlattenCfg) (fuel : Nat) : Mangler :=
 
 /-! ### anonymous flatten -/
 
+/-- Mangle: only embedded structs and embedded pointers to structs are hoisted.  An embedded pointer whose
+pointee is not a struct (a named scalar that Pointerify wrapped, a `*string` left by the text-unmarshaler
+mangler, and also `**struct`: `Type.Elem().Kind()` is Ptr there) is passed through unchanged (since the
+repair of P08; the pointer was stripped and the recursion returned the field with the stripped type
+before). -/
 def anonMangle : Nat → Hdr → Ty → Outcome (List FT)
   | 0, _, _ => .err "fuel"
   | fuel + 1, h, t =>
     if !h.anon then .ok [(h, t)]
     else match t with
-      | .ptr e => anonMangle fuel h e
+      | .ptr (.struct ifs) => anonMangle fuel h (.struct ifs)
       | .struct ifs => .ok ifs.toList
       | _ => .ok [(h, t)]
 
+/-- Unmangle: the mirror image of `anonMangle`; an embedded pointer to a non-struct (including `**struct`)
+forwards its single value (`fvs[0].Value`) like every non-hoisted field (since the repair of P08;
+`NumField` of the non-struct pointee panicked before, and the model rebuilt a `*struct` for every
+pointer). -/
 def anonUnmangle (h : Hdr) (t : Ty) (fvs : List (FT × Val)) : Outcome Val :=
   if !h.anon then
     match fvs with
     | (_, v) :: _ => .ok v
     | [] => .panic "index out of range"
   else match t with
-    | .ptr _ =>
+    | .ptr (.struct _) =>
       let vs := fvs.map (·.2)
       if vs.all Val.isNil then .ok .nilv else .ok (.ptr (.struct vs))
     | .struct _ => .ok (.struct (fvs.map (·.2)))
